@@ -320,7 +320,7 @@ func Run(choose Chooser, maxSteps int, body func()) (failure string) {
 }
 
 func newThread(name string) *Thread {
-	t := &Thread{ID: len(S.threads), Name: name, sem: make(chan struct{}, 1), exited: make(chan struct{}), op: &Op{Kind: OpStart, Name: "start"}}
+	t := &Thread{ID: len(S.threads), Name: name, LastRun: S.Clock, sem: make(chan struct{}, 1), exited: make(chan struct{}), op: &Op{Kind: OpStart, Name: "start"}}
 	S.threads = append(S.threads, t)
 	return t
 }
